@@ -49,6 +49,7 @@ Faults    == Scn.faults                 \* one storage call may fail (the call r
 LnFree    == Scn.ln = "any"             \* conformance mode: any Lightning answer at any time
 ReleaseByQuote == Scn.releasecheck      \* FALSE: the implementation before commit d621dd9 (must fail)
 PollNotFound == Scn.pollnotfound        \* TRUE: a variant in which a poll treats "no such payment" as a failed payment
+CheckLocked == Scn.checklocked          \* FALSE: the state check reads the two proof tables without proofsMu (before bbe32f5; must fail)
 PollGuard == Scn.pollguard              \* FALSE: the implementation before the meltsInProgress guard (must fail)
 
 VARIABLES used, pend, sigs, lqs, mqs,   \* storage
@@ -191,6 +192,10 @@ PollMelt(p) ==
      /\ UNCHANGED <<DB, LN, GH, CR, loc>>
   \/ PollBody(p, q, "g", Exit)
 
+\* s has been taken out of the pending table by a request that is about to store it as spent
+MidSettle(s) == \E r \in Procs : \/ (pc[r] = "ms2" /\ s \in Ins(r))
+                                  \/ (pc[r] \in {"g5", "c5"} /\ s \in loc[r].rm)
+
 (* ---- state check: reads pending, polls the quote it finds, reads again - *)
 CheckState(p) ==
   LET q == loc[p].q
@@ -208,11 +213,17 @@ CheckState(p) ==
         ELSE Goto(p, "c9") /\ mu' = Released(p, "proofs")
      /\ UNCHANGED <<DB, LN, GH, CR, loc, res>>
   \/ /\ q # "" /\ PollBody(p, q, "c", Exit)
-  \/ /\ pc[p] = "c9" /\ CanLock(p, "proofs") /\ Label(p, "db:GetPendingProofs")
-     /\ Goto(p, "c10") /\ mu' = Holding(p, "proofs")
-     /\ UNCHANGED <<DB, LN, GH, CR, loc, res>>
+  \* the reply is built from two reads: the pending table, then the spent table (C15 under concurrency: a secret that is
+  \* locked, spent or in the middle of being settled must never be reported UNSPENT)
+  \/ /\ pc[p] = "c9" /\ (CheckLocked => CanLock(p, "proofs")) /\ Label(p, "db:GetPendingProofs")
+     /\ Goto(p, "c10") /\ mu' = (IF CheckLocked THEN Holding(p, "proofs") ELSE mu)
+     /\ SetLoc(p, "rm", Ins(p) \cap PendSecrets)
+     /\ UNCHANGED <<DB, LN, GH, CR, res>>
   \/ /\ pc[p] = "c10" /\ Label(p, "db:GetProofsUsed")
-     /\ Finish(p, "ok") /\ mu' = Released(p, "proofs")
+     /\ LET saidUnspent == {s \in Ins(p) : s \notin used /\ s \notin loc[p].rm}
+            lie == \E s \in saidUnspent : s \in PendSecrets \/ MidSettle(s)
+        IN Finish(p, IF lie THEN "ok:LIE" ELSE "ok")
+     /\ mu' = Released(p, "proofs")
      /\ UNCHANGED <<DB, LN, GH, CR, loc>>
 
 (* ---- melt ------------------------------------------------------------- *)
@@ -454,6 +465,7 @@ IssuedNoSigs == \E q \in MQs : mqs[q] = "ISSUED" /\ issues[q] = 0     \* marked 
 
 Inv_NoDoubleUse == ~faulted => NoDoubleUse     \* after a failed storage call the windows reported below lead to it
 Inv_IssueOnce   == IssueOnce
+Inv_CheckTruth  == \A p \in Procs : res[p] # "ok:LIE"
 Inv_Quiet       == (Quiet /\ ~crashed /\ ~faulted) => ~Inflation /\ ~Stranded /\ ~LockedForGood /\ ~QuoteLies /\ ~MintQuoteStuck /\ ~IssuedNoSigs
 
 \* crash windows: reported, not failed on (the mint has no transaction spanning several storage calls; the windows
